@@ -1,7 +1,7 @@
 //! Correspondence harness for engine `treap` (properties C03 and C16): drives
 //! rlib_treap::{Treap, TreapNode} in-process on a vector of live treaps.
 //!
-//! Case line:  `<C03|C16> <sum|aff> <ctl|own|big> [pm=k] ; op ; op ; ...`   (see lean/Driver/Treap.lean)
+//! Case line:  `<C03|C16> <sum|aff|key> <ctl|own|big> [pm=k] ; op ; op ; ...`   (see lean/Driver/Treap.lean)
 //!   ctl  priorities are in the case and are written into the public `priority` field;
 //!   own  priorities are the ones rlib draws (`*`), only sequence-level observables are compared;
 //!   big  (C16) macro operations up to 10^6 elements: heap order on every edge, measured height.
@@ -11,7 +11,7 @@ mod gen;
 mod items;
 use common::*;
 use items::*;
-use rlib_treap::{Treap, TreapNode};
+use rlib_treap::{Treap, TreapItem, TreapNode};
 
 type Link<I> = Option<Box<TreapNode<I>>>;
 
@@ -100,11 +100,11 @@ fn shape<I>(root: &Link<I>, out: &mut String) {
 }
 
 /// placeholder left behind when a treap is moved out of the vector (a user would write the same)
-fn empty<I: HItem>() -> Treap<I> {
+fn empty<I: TreapItem>() -> Treap<I> {
     Treap::new()
 }
 
-fn take<I: HItem>(ts: &mut [Treap<I>], i: usize) -> Treap<I> {
+fn take<I: TreapItem>(ts: &mut [Treap<I>], i: usize) -> Treap<I> {
     std::mem::replace(&mut ts[i], empty())
 }
 
@@ -236,6 +236,74 @@ fn step<I: HItem>(ts: &mut Vec<Treap<I>>, t: &[&str]) -> Option<(String, String)
             ts.remove(i);
             same("-".into())
         }
+        // ---- re-use of what the API handed back -------------------------------------------------
+        ["move", i, k, j, pos, p] => {
+            // `let it = ts[i].remove_at(k); ts[j].insert_at(pos, it);` — the returned item itself is re-used
+            let (i, j) = (idx(i, ts.len())?, idx(j, ts.len())?);
+            let k: usize = k.parse().ok()?;
+            let pos: usize = pos.parse().ok()?;
+            let prio: Option<u32> = if *p == "*" { None } else { Some(p.parse::<u32>().ok()?) };
+            let tr = &mut ts[i];
+            match catch(|| tr.remove_at(k)) {
+                Err(e) => Some((format!("rm:{}", e), "rm:panic".into())),
+                Ok(it) => {
+                    let x = it.own();
+                    match prio {
+                        None => ts[j].insert_at(pos, it),
+                        Some(pr) => {
+                            // with a given priority `insert_at` is its own definition
+                            let mut node = Box::new(TreapNode::new(it));
+                            node.priority = pr;
+                            let (l, r) = TreapNode::split_at(ts[j].root.take(), pos);
+                            ts[j].root = TreapNode::merge(TreapNode::merge(l, Some(node)), r);
+                        }
+                    }
+                    same(format!("mv:{}:n:{}", x, ts[j].size()))
+                }
+            }
+        }
+        ["take", i, k, p] => {
+            // `Treap::from_item(ts[i].remove_at(k))`
+            let i = idx(i, ts.len())?;
+            let k: usize = k.parse().ok()?;
+            let prio: Option<u32> = if *p == "*" { None } else { Some(p.parse::<u32>().ok()?) };
+            let tr = &mut ts[i];
+            match catch(|| tr.remove_at(k)) {
+                Err(e) => Some((format!("rm:{}", e), "rm:panic".into())),
+                Ok(it) => {
+                    let x = it.own();
+                    let mut t2 = Treap::from_item(it);
+                    if let Some(pr) = prio {
+                        t2.root.as_mut().unwrap().priority = pr;
+                    }
+                    ts.push(t2);
+                    same(format!("rm:{}", x))
+                }
+            }
+        }
+        ["dup", i, w, p] => {
+            // clone the ONLY element of a treap (a clone of an interior node's item is not a fresh item)
+            let i = idx(i, ts.len())?;
+            let prio: Option<u32> = if *p == "*" { None } else { Some(p.parse::<u32>().ok()?) };
+            let c: Option<I> = if ts[i].size() <= 1 {
+                match *w {
+                    "first" => ts[i].first().cloned(),
+                    "last" => ts[i].last().cloned(),
+                    "collect" => ts[i].collect().first().map(|x| (*x).clone()),
+                    _ => return None,
+                }
+            } else {
+                if !matches!(*w, "first" | "last" | "collect") {
+                    return None;
+                }
+                None
+            };
+            dup_push(ts, c.map(|c| (c.own(), c)), prio)
+        }
+        ["collect2", i, j] => {
+            let (i, j) = (idx(i, ts.len())?, idx(j, ts.len())?);
+            same(collect2(ts, i, j, |x| x.own())?)
+        }
         ["tag", i, rest @ ..] => {
             let i = idx(i, ts.len())?;
             let m = I::parse_tag(rest)?;
@@ -248,7 +316,151 @@ fn step<I: HItem>(ts: &mut Vec<Treap<I>>, t: &[&str]) -> Option<(String, String)
     }
 }
 
-fn run_hist<I: HItem>(focus: &str, stream: &str, ops: &[&str]) -> String {
+/// `Treap::from_item(clone)` (or `Treap::new()` when there was nothing to clone) becomes a new live treap
+fn dup_push<I: TreapItem>(ts: &mut Vec<Treap<I>>, c: Option<(i128, I)>, prio: Option<u32>) -> Option<(String, String)> {
+    let s = match c {
+        Some((x, it)) => {
+            let mut t2 = Treap::from_item(it);
+            if let Some(pr) = prio {
+                t2.root.as_mut().unwrap().priority = pr;
+            }
+            ts.push(t2);
+            format!("some:{}", x)
+        }
+        None => {
+            ts.push(Treap::new());
+            "none".to_string()
+        }
+    };
+    Some((s.clone(), s))
+}
+
+/// `TreapNode::collect_into` called directly: treap `i`, then treap `j`, into ONE vector — the second
+/// call must append after what the first one left there
+fn collect2<I: TreapItem>(ts: &mut [Treap<I>], i: usize, j: usize, own: impl Fn(&I) -> i128) -> Option<String> {
+    if i == j {
+        return None;
+    }
+    let (a, b) = if i < j {
+        let (l, r) = ts.split_at_mut(j);
+        (&mut l[i], &mut r[0])
+    } else {
+        let (l, r) = ts.split_at_mut(i);
+        (&mut r[0], &mut l[j])
+    };
+    let mut v: Vec<&I> = Vec::new();
+    if let Some(r) = a.root.as_mut() {
+        r.collect_into(&mut v);
+    }
+    if let Some(r) = b.root.as_mut() {
+        r.collect_into(&mut v);
+    }
+    let out: Vec<String> = v.into_iter().map(|x| own(x).to_string()).collect();
+    Some(format!("[{}]", out.join(",")))
+}
+
+/// One operation on treaps of `KeyIt` — the item that relies on the trait's default `update`/`push` and has no
+/// `TreapItemSized`: only `new item merge splitby first last collect collect2 size dup drop` exist. Sizes are the
+/// number of nodes counted through the public fields.
+fn step_key(ts: &mut Vec<Treap<KeyIt>>, t: &[&str]) -> Option<(String, String)> {
+    let idx = |s: &str, n: usize| -> Option<usize> { s.parse::<usize>().ok().filter(|&i| i < n) };
+    let same = |s: String| Some((s.clone(), s));
+    let count = |t: &Treap<KeyIt>| height_count(&t.root).1;
+    match t {
+        ["new"] => {
+            ts.push(Treap::new());
+            same("-".into())
+        }
+        ["item", v, p] => {
+            let v: i64 = v.parse().ok()?;
+            let mut tr = Treap::from_item(KeyIt { x: v });
+            if *p != "*" {
+                tr.root.as_mut().unwrap().priority = p.parse::<u32>().ok()?;
+            }
+            ts.push(tr);
+            same("-".into())
+        }
+        ["merge", i, j] => {
+            let (i, j) = (idx(i, ts.len())?, idx(j, ts.len())?);
+            if i == j {
+                return None;
+            }
+            let a = take(ts, i);
+            let b = take(ts, j);
+            ts[i] = Treap::merge(a, b);
+            let s = count(&ts[i]);
+            ts.remove(j);
+            same(format!("n:{}", s))
+        }
+        ["splitby", i, rel, c] => {
+            let i = idx(i, ts.len())?;
+            let g = pred_of(rel, c.parse().ok()?)?;
+            let (l, r) = take(ts, i).split_by(|it| g(it.x as i128));
+            let s = format!("n:{}+{}", count(&l), count(&r));
+            ts[i] = l;
+            ts.push(r);
+            same(s)
+        }
+        ["first", i] => {
+            let i = idx(i, ts.len())?;
+            same(match ts[i].first() {
+                Some(x) => format!("some:{}", x.x),
+                None => "none".into(),
+            })
+        }
+        ["last", i] => {
+            let i = idx(i, ts.len())?;
+            same(match ts[i].last() {
+                Some(x) => format!("some:{}", x.x),
+                None => "none".into(),
+            })
+        }
+        ["collect", i] => {
+            let i = idx(i, ts.len())?;
+            let v: Vec<String> = ts[i].collect().into_iter().map(|x| x.x.to_string()).collect();
+            same(format!("[{}]", v.join(",")))
+        }
+        ["collect2", i, j] => {
+            let (i, j) = (idx(i, ts.len())?, idx(j, ts.len())?);
+            same(collect2(ts, i, j, |x| x.x as i128)?)
+        }
+        ["size", i] => {
+            let i = idx(i, ts.len())?;
+            let n = count(&ts[i]);
+            if ts[i].is_empty() != (n == 0) || ts[i].root().is_some() != (n > 0) {
+                return same(format!("n:{}!is_empty={}", n, ts[i].is_empty()));
+            }
+            same(format!("n:{}", n))
+        }
+        ["dup", i, w, p] => {
+            let i = idx(i, ts.len())?;
+            let prio: Option<u32> = if *p == "*" { None } else { Some(p.parse::<u32>().ok()?) };
+            if !matches!(*w, "first" | "last" | "collect") {
+                return None;
+            }
+            let c: Option<KeyIt> = if count(&ts[i]) <= 1 {
+                match *w {
+                    "first" => ts[i].first().cloned(),
+                    "last" => ts[i].last().cloned(),
+                    _ => ts[i].collect().first().map(|x| (*x).clone()),
+                }
+            } else {
+                None
+            };
+            dup_push(ts, c.map(|c| (c.x as i128, c)), prio)
+        }
+        ["drop", i] => {
+            let i = idx(i, ts.len())?;
+            ts.remove(i);
+            same("-".into())
+        }
+        _ => None,
+    }
+}
+
+type StepFn<I> = fn(&mut Vec<Treap<I>>, &[&str]) -> Option<(String, String)>;
+
+fn run_hist<I: TreapItem>(focus: &str, stream: &str, ops: &[&str], step: StepFn<I>) -> String {
     let c16 = focus == "C16";
     let mut ts: Vec<Treap<I>> = Vec::new();
     let (mut raw, mut view): (Vec<String>, Vec<String>) = (Vec::new(), Vec::new());
@@ -537,9 +749,11 @@ fn run_case_here(line: &str) -> String {
         if stream == "big" {
             run_big(&ops)
         } else if item == "sum" {
-            run_hist::<SumIt>(focus, stream, &ops)
+            run_hist::<SumIt>(focus, stream, &ops, step::<SumIt>)
         } else if item == "aff" {
-            run_hist::<AffIt>(focus, stream, &ops)
+            run_hist::<AffIt>(focus, stream, &ops, step::<AffIt>)
+        } else if item == "key" {
+            run_hist::<KeyIt>(focus, stream, &ops, step_key)
         } else {
             out1("BAD-HEADER")
         }
